@@ -36,8 +36,18 @@ def _nest(open_close, n, inner="x = 1"):
     return lines
 
 
+_DECLS = []      # specification statements put in front of every family body while a case is evaluated
+
+
 def _prog(lines):
-    return "subroutine s\n" + "\n".join(lines) + "\nend subroutine s\n"
+    return "subroutine s\n" + "".join(d + "\n" for d in _DECLS) + "\n".join(lines) + "\nend subroutine s\n"
+
+
+# specification-part contexts that must not change the growth of any family (they only fill the symbol table)
+DECL_POOL = ["use limits_mod, only: big => max", "use m2, small => sin, only_real => real", "use m3", "implicit none",
+             "use m4, only: f, t, s", "integer :: k, k0, k1, k2", "real, external :: ext_f"]
+# (declarations or ONLY-imports of max/sin/... are left out: they turn the intrinsic nests into the user-function nests of
+# the recorded finding C20-nested-references-exponential)
 
 
 FAMILIES = {
@@ -101,6 +111,12 @@ FAMILIES = {
     "nested_component_procedure_refs": lambda n: _prog(["x = " + "obj%get(key = " * n + "a" + ")" * n]),
     "nested_substrings": lambda n: _prog(["c = " + "s(1)(" * n + "1" + ":2)" * n]),
     "nested_intrinsic_refs": lambda n: _prog(["x = " + "max(1, " * n + "a" + ")" * n]),
+    # the same reference nests behind a specification part that fills the symbol table (USE with renames whose
+    # module-side names are intrinsics, ONLY lists, wildcard USE, declarations)
+    "nested_intrinsic_refs_in_context": lambda n: _prog(DECL_POOL + ["x = " + "max(1, " * n + "a" + ")" * n]),
+    "nested_intrinsic_refs_in_context2": lambda n: _prog(DECL_POOL + ["x = " + "sin(real(" * n + "a" + "))" * n]),
+    "nested_keyword_arg_refs_in_context": lambda n: _prog(DECL_POOL + ["x = " + "f(k = " * n + "a" + ")" * n]),
+    "nested_parens_in_context": lambda n: _prog(DECL_POOL + ["x = " + "(" * n + "a" + " + b)" * n]),
     "io_implied_do_items": lambda n: _prog(["write(6, *) " + "(" * n + "a(i1)" + "".join(", b(i%d), i%d = 1, 2)" % (i, i) for i in range(n))]),
     "io_implied_do_items_first": lambda n: _prog(["read(5, *) " + "(b(i), " * n + "a(i1)" + "".join(", i%d = 1, 2)" % i for i in range(n))]),
     "ac_implied_do_nest": lambda n: _prog(["x = [" + "(" * n + "a(i1)" + "".join(", b, i%d = 1, 2)" % i for i in range(n)) + "]"]),
@@ -212,6 +228,7 @@ def build(rnd, tier, flags):
         if inner == "1.0e-3" and recipe[0] in ("c(%s)%%d", "s(1)(%s:2)"):
             inner = "k"        # a real literal as subscript / substring bound of a data-ref is rejected by design
         return {"family": "generated_expr", "recipe": recipe, "innermost": inner,
+                "decls": [r.pick(DECL_POOL) for _ in range(r.n(0, 2))] if r.chance(40) else [],
                 "stmt": r.pick(["x = %s", "if (l) x = %s", "call sub(%s, 1)", "print *, %s", "x = arr(%s)"]),
                 "n": r.pick(sizes(tier)), "std": r.pick(["f2003", "f2008"])}
     if r.chance(20):
@@ -265,6 +282,14 @@ def shard_extra():
 
 
 def evaluate(case):
+    _DECLS[:] = case.get("decls", [])
+    try:
+        return _evaluate(case)
+    finally:
+        _DECLS[:] = []
+
+
+def _evaluate(case):
     n = case["n"]
     fam = case["family"]
     name = fam if not fam.startswith("generated") else {"generated": "gen:", "generated_siblings": "sib:", "generated_io": "io:",
